@@ -56,24 +56,24 @@ def run_tlc(job):
 
 def mc_cfg(consts, live=True, gen=False):
     if gen:     # generator + safety in one pass; terminal states have no successor, deadlock = NoStuck
-        return ("CONSTANTS %s Hist = TRUE\nINIT Init\nNEXT NextNoStutter\nVIEW View\nINVARIANT JudgeOk EndOk NoStuck GenBeh\n"
+        return ("CONSTANTS %s Hist = TRUE\nINIT Init\nNEXT NextNoStutter\nVIEW View\nINVARIANT CexBeh JudgeOk EndOk NoStuck GenBeh\n"
                 "CHECK_DEADLOCK FALSE\n" % consts)
     return ("CONSTANTS %s Hist = FALSE\nSPECIFICATION FairSpec\nINVARIANT JudgeOk EndOk\n%sCHECK_DEADLOCK TRUE\n"
             % (consts, "PROPERTY Terminates\n" if live else ""))
 
 
-def statics_stims(out, tag):
+def statics_stims(out, tag, marker="BEH"):
     res = []
-    for s in tlc_prints(out, "BEH"):
+    for s in tlc_prints(out, marker):
         b = json.loads(s)
         res.append({"kind": "statics", "id": "%s:%d" % (tag, len(res)), "deps": {str(i + 1): d for i, d in enumerate(b["deps"])},
                     "progs": b["progs"], "script": b["script"]})
     return res
 
 
-def pt_stims(out, tag, variant):
+def pt_stims(out, tag, variant, marker="BEH"):
     res = []
-    for s in tlc_prints(out, "BEH"):
+    for s in tlc_prints(out, marker):
         b = json.loads(s)
         st = {"kind": "pt", "id": "%s:%d" % (tag, len(res)), "variant": variant, "progs": b["progs"], "script": b["script"]}
         if variant == "rc":     # instance_per_thread.rs has no yield points: operations are atomic, keep the operation order
@@ -172,23 +172,23 @@ def check(run):
     RC23, RC33 = 'NT = 2 MaxOps = 2 MaxRefs = 3 AllowMove = FALSE Variant = "orig"', 'NT = 2 MaxOps = 3 MaxRefs = 3 AllowMove = FALSE Variant = "orig"'
     jobs = [
         ("statics live NT=2 NS=3 P=1", "MC_LinkedStatics", mc_cfg(SV23), dict(workers=w, timeout=1500)),
-        ("statics gen NT=2 NS=3 P=1", "MC_LinkedStatics", mc_cfg(SV23, gen=True), dict(workers=w, timeout=1500)),
+        ("statics gen NT=2 NS=3 P=1", "MC_LinkedStatics", mc_cfg(SV23, gen=True), dict(workers=w, timeout=1500, coverage=thorough)),
         ("pt live NT=2 O=3 R=3", "MC_PerThread", mc_cfg(PT33), dict(workers=w, timeout=1500)),
-        ("pt gen", "MC_PerThread", mc_cfg(PT33 if thorough else PT23, gen=True), dict(workers=w, timeout=1500)),
+        ("pt gen", "MC_PerThread", mc_cfg(PT33 if thorough else PT23, gen=True), dict(workers=w, timeout=1500, coverage=thorough)),
         ("rc gen", "MC_PerThread", mc_cfg(RC33 if thorough else RC23, gen=True), dict(workers=w, timeout=1500)),
     ]
     if thorough:
         jobs += [
             ("statics gen NT=3 NS=2 P=1", "MC_LinkedStatics", mc_cfg(SV32, gen=True), dict(workers=w, timeout=1500)),
-            ("statics live NT=3 NS=3 P=1", "MC_LinkedStatics", mc_cfg("NT = 3 NS = 3 MaxProg = 1 " + V), dict(workers=6, timeout=3000, coverage=True, xmx="8g")),
+            ("statics live NT=3 NS=3 P=1", "MC_LinkedStatics", mc_cfg("NT = 3 NS = 3 MaxProg = 1 " + V), dict(workers=6, timeout=3000, xmx="8g")),
             ("statics live NT=2 NS=3 P=2", "MC_LinkedStatics", mc_cfg("NT = 2 NS = 3 MaxProg = 2 " + V), dict(workers=6, timeout=3000, xmx="8g")),
-            ("pt live NT=3 O=2 R=3", "MC_PerThread", mc_cfg("NT = 3 MaxOps = 2 MaxRefs = 3 AllowMove = TRUE " + V), dict(workers=6, timeout=3000, coverage=True, xmx="8g")),
+            ("pt live NT=3 O=2 R=3", "MC_PerThread", mc_cfg("NT = 3 MaxOps = 2 MaxRefs = 3 AllowMove = TRUE " + V), dict(workers=6, timeout=3000, xmx="8g")),
             ("pt live NT=2 O=4 R=4", "MC_PerThread", mc_cfg("NT = 2 MaxOps = 4 MaxRefs = 4 AllowMove = TRUE " + V), dict(workers=6, timeout=3000, xmx="8g")),
             ("rc live NT=3 O=2 R=3", "MC_PerThread", mc_cfg('NT = 3 MaxOps = 2 MaxRefs = 3 AllowMove = FALSE Variant = "orig"'), dict(workers=6, timeout=3000, xmx="8g")),
         ]
     # random walks of larger instances as additional scripts (the walks are checked against the judge, too)
     nsim = 1500 if thorough else 120
-    simcfg = lambda c: mc_cfg(c, gen=True).replace("VIEW View\n", "").replace(" NoStuck", "")
+    simcfg = lambda c: mc_cfg(c, gen=True).replace("VIEW View\n", "").replace(" NoStuck", "").replace("CexBeh ", "CexBehSafe ")
     jobs += [
         ("statics sim NT=3 NS=3 P=2", "MC_LinkedStatics", simcfg("NT = 3 NS = 3 MaxProg = 2 " + V),
          dict(workers=2, timeout=1500, simulate=nsim, depth=200, seed=run.seed % 100000)),
@@ -220,6 +220,12 @@ def check(run):
             xs = rng.sample(xs, n)
         return xs
     scripted = pick(st_cover, cap) + pick(st_sim, cap) + pick(pt_cover, cap) + pick(pt_sim, cap) + pick(rc_cover, cap // 2)
+    # counterexamples of the explorers (if any) are stimuli, too: a violation needs the real code to reproduce them
+    for n, r in results.items():
+        if "statics" in n:
+            scripted += dedupe(statics_stims(r.out, "cex:" + n, "CEX"))[:3]
+        else:
+            scripted += dedupe(pt_stims(r.out, "cex:" + n, "rc" if n.startswith("rc") else "sync", "CEX"))[:3]
     # the same programs under seeded random and PCT schedules (no script), plus the known scenarios several times
     free = []
     for s in pick(scripted, cap):
